@@ -15,10 +15,63 @@
 package core
 
 import (
+	"bytes"
 	"errors"
 
 	"rcproxy/core/codec"
 )
+
+const (
+	// limits a redis server itself applies to a request
+	maxReqArgs    = 1024 * 1024
+	maxReqBulkLen = 512 * 1024 * 1024
+	// "*" or "$" + at most 10 digits + CRLF
+	maxReqHeaderLine = 16
+)
+
+// parseReqLen parses the count of a request ("*<n>") or the length of one of
+// its arguments ("$<n>"): a canonical decimal number in 0..max, nothing else.
+func parseReqLen(p []byte, max int) (int, error) {
+	if len(p) < 1 || len(p) > 10 || (p[0] == '0' && len(p) > 1) {
+		return -1, codec.ErrInvalidResp
+	}
+	var n int
+	for _, b := range p {
+		if b < '0' || b > '9' {
+			return -1, codec.ErrInvalidResp
+		}
+		n = n*10 + int(b-'0')
+	}
+	if n > max {
+		return -1, codec.ErrInvalidResp
+	}
+	return n, nil
+}
+
+// headerLineErr decides what a failed read of a request's count/length line
+// means. line holds the bytes from the start of that line, consumed how many
+// of them the failed read went over. It returns codec.ErrInvalidResp when the
+// bytes received so far can never become a valid header line ("\n" without
+// "\r", an empty line, a "\r" followed by something else, no line end within
+// the longest possible header), otherwise err: more bytes are needed.
+func headerLineErr(line []byte, consumed int, err error) error {
+	switch err {
+	case codec.ErrInvalidResp:
+		return err
+	case codec.EmptyLine:
+		if consumed > 0 {
+			return codec.ErrInvalidResp
+		}
+	case codec.ErrLFNotFound:
+		if len(line) > maxReqHeaderLine {
+			return codec.ErrInvalidResp
+		}
+		if i := bytes.IndexByte(line, '\r'); i >= 0 && i < len(line)-1 {
+			return codec.ErrInvalidResp
+		}
+	}
+	return err
+}
 
 func parseLen(p []byte) (int, error) {
 	if len(p) < 1 {
